@@ -3,6 +3,7 @@
   (abstract loop level; the refinement from the Python-faithful model `Snmp.Walk.multiwalk`
   is in Snmp/Lemmas/WalkRefine.lean — see DESIGN.md for what is proved at which level)
 -/
+import Snmp.Gen.Facts
 import Snmp.Lemmas.WalkAbs
 import Snmp.Lemmas.WalkFaithful
 import Snmp.Lemmas.WalkRefine
@@ -106,5 +107,13 @@ example : Sorted ([([1,3,1,1], Val.int 1), ([1,3,2,1], Val.null), ([1,3,2,2], Va
 
 example : Sorted [[1,3,1,1],[1,3,2,1]] ∧ Disjoint [[1,3,1],[1,3,2]] := by
   refine ⟨by unfold Sorted; decide, by unfold Disjoint; decide⟩
+
+
+/-- the loop of `Client.multiwalk` has the shape the model `Walk.multiwalk` renders (generated from the
+    AST): roots sorted for the first request, `yielded` a local of the generator, one
+    `while unfinished_oids:` loop, `NoSuchOID` ends it, `FaultySNMPImplementation` ends it in lenient
+    mode and is re-raised otherwise, every response goes through `group_varbinds`,
+    `get_unfinished_walk_oids` and `deduped_varbinds(oids, …, yielded)` -/
+theorem C01_loop_shape : Snmp.Gen.walkLoopShape = true := by decide
 
 end Snmp.Props.C01
